@@ -67,7 +67,7 @@ func (b *batch) run(rep *lib.Report, name string, mismatch func(q *query, got st
 
 func main() {
 	rep := lib.NewReport(prop)
-	rep.Rule = "M10: generated functions (control-flow skeletons exhaustive up to a node bound and random beyond; case functions with validator checks in 25 syntactic forms, sanitizers, sinks, loops, switches) — every ordered block pair (sampled above 14 blocks), every If condition x polarity, condition x call-argument pairs; distinct = distinct (CFG text, query). E2E: one case = one generated function x ground truth over all decision streams; non-trivial = the function has a validator or sanitizer between a source and a sink"
+	rep.Rule = "M10: generated functions (control-flow skeletons exhaustive up to a node bound and random beyond; case functions with validator checks in 27 syntactic forms, sanitizers, sinks, loops, switches) — every ordered block pair (sampled above 14 blocks), every If condition x polarity, condition x call-argument pairs; distinct = distinct (CFG text, query). E2E: one case = one generated function x ground truth over all decision streams; non-trivial = the function has a validator or sanitizer between a source and a sink"
 	t0 := time.Now()
 	lap := func(name string) {
 		rep.Extra["wall_"+name+"_s"] = time.Since(t0).Seconds()
